@@ -235,7 +235,11 @@ def graph_spec(nodes, rng=None):
     """nodes: list of (kind, own_opaque, refs) with kind in struct/union/typedef; names g0..; refs are indices
     (or -1 for an undeclared name).  Edge kinds are drawn from rng (or plain when rng is None)."""
     items = []
-    name = lambda i: "g%d" % i if i >= 0 else "undeclared"
+    # one time in four the declarations carry names that are the Rust spellings of primitives or names the generator / prelude use:
+    # they are ordinary XDR identifiers and the generic index is about names
+    odd = ["String", "f32", "f64", "Vec", "Option", "Box", "Bytes", "T", "Error", "usize", "str", "Self_", "Result", "Some", "None"]
+    pool = rng.shuffle(odd) if (rng and rng.chance(1, 4)) else None
+    name = lambda i: ((pool[i] if pool and i < len(pool) else "g%d" % i) if i >= 0 else "undeclared")
     for i, (kind, own, refs) in enumerate(nodes):
         if kind == "typedef":
             ty = "opaque" if own else (name(refs[0]) if refs else "int")
